@@ -1,19 +1,22 @@
 #!/usr/bin/env python3
-"""collect_f19.py [out-dir]: add the inputs of `fits_stays_fitting` violations found on the UNCHANGED tree (out/C11.violations.ndjson) to the
-input list of known finding F19 (a build-time tool: the checks never add to known_findings.json)."""
+"""collect_f19.py [out-dir]: add the inputs of violations found on the UNCHANGED tree (out/C11.violations.ndjson) to the input lists of
+the known findings that are identified by input: F19 (`fits_stays_fitting`) and F24 (`wider_not_more_lines` without a site).
+A build-time tool: the checks never add to known_findings.json."""
 import hashlib, json, sys
 d = sys.argv[1] if len(sys.argv) > 1 else "/verif/out"
 k = json.load(open("/verif/known_findings.json"))
-f19 = next(f for f in k["known"] if f["id"].startswith("F19"))
-have = set(f19["match"]["text_sha256"])
-new = 0
-for l in open(f"{d}/C11.violations.ndjson"):
-    v = json.loads(l)
-    if v.get("clause") == "fits_stays_fitting":
+for prefix, clause, want_site in (("F19", "fits_stays_fitting", None), ("F24", "wider_not_more_lines", False)):
+    f = next(x for x in k["known"] if x["id"].startswith(prefix))
+    have = set(f["match"]["text_sha256"])
+    new = 0
+    for l in open(f"{d}/C11.violations.ndjson"):
+        v = json.loads(l)
+        if v.get("clause") != clause or (want_site is False and "[site" in v.get("detail", "")):
+            continue
         h = hashlib.sha256(v["case"]["text"].encode()).hexdigest()
         if h not in have:
             have.add(h); new += 1
-            print("new:", v["case"].get("label"), v["detail"], v["case"].get("cfg"))
-f19["match"]["text_sha256"] = sorted(have)
+            print(prefix, "new:", v["case"].get("label"), v["detail"][:100])
+    f["match"]["text_sha256"] = sorted(have)
+    print(prefix, new, "added;", len(have), "inputs")
 json.dump(k, open("/verif/known_findings.json", "w"), indent=1, ensure_ascii=False)
-print(new, "added;", len(have), "inputs")
